@@ -305,6 +305,39 @@ def oracles(ctx, deep):
         w_ref, ep_ref, steps_ref = reference(c)
         if r["steps"] != steps_ref or r["w"] != w_ref:
             add(Violation("mean-gradient", "with validation every %d iterations (%d validations ran) the optimiser saw %s, expected %s (gradient_steps=%d, gradients %s)" % (vs, r["validations"], r["steps"], steps_ref, k, c["grads"]), {"case": c, "validation_steps": vs, "observed_steps": r["steps"], "expected_steps": steps_ref}, {"kind": "mean-gradient", "k_gt_1": True, "with_validation": True}))
+    # validation points without validation datasets (the default): training must go on in training mode afterwards
+    for _ in range(ctx.n(4, 40)):
+        k = rng.choice([1, 2, 3])
+        n = rng.randint(8, 14)
+        pool = [-6, -3, 1.5, 3, 6, 12] if k == 3 else [-4, -2, -1, 1, 2, 4, 0.5]
+        c = dict(k=k, n=n, bs=1, grads=[rng.choice(pool) for _ in range(n)], lr=0.5)
+        vs = rng.choice([1, 2, 3, 5, 6])
+        runs += 1
+        try:
+            r = run_impl(c, root, validation_steps=vs, no_val_datasets=True)
+        except Exception as e:  # noqa
+            add(Violation("training-runs", "Engine.train with validation points but no validation datasets raises %s: %s" % (type(e).__name__, str(e)[:120]), {"case": c, "validation_steps": vs}, {"kind": "raises-validation"}))
+            continue
+        w_ref, ep_ref, steps_ref = reference(c)
+        if r["steps"] != steps_ref or r["w"] != w_ref:
+            add(Violation("mean-gradient", "with validation points every %d iterations and no validation datasets the optimiser saw %s, expected %s (gradient_steps=%d, gradients %s; an engine that back-propagates only in training mode)" % (vs, r["steps"], steps_ref, k, c["grads"]), {"case": c, "validation_steps": vs, "validation_datasets": None, "observed_steps": r["steps"], "expected_steps": steps_ref}, {"kind": "mean-gradient", "k_gt_1": k > 1, "with_validation": True, "no_datasets": True}))
+    # a second, non-resumed run on the same engine object, after a run whose length is not a multiple of gradient_steps
+    for _ in range(ctx.n(4, 40)):
+        k = rng.choice([2, 3, 4])
+        n = rng.randint(4, 10)
+        n1 = rng.choice([x for x in range(1, 9) if x % k])
+        pool = [-6, -3, 1.5, 3, 6, 12] if k == 3 else [-4, -2, -1, 1, 2, 4, 0.5]
+        c = dict(k=k, n=n, bs=1, grads=[rng.choice(pool) for _ in range(n)], lr=0.5)
+        g1 = [rng.choice(pool) for _ in range(n1)]
+        runs += 1
+        try:
+            r = run_impl(c, root, first_run=(n1, g1))
+        except Exception as e:  # noqa
+            add(Violation("training-runs", "a second Engine.train on the same engine raises %s: %s" % (type(e).__name__, str(e)[:120]), {"case": c, "first_run": [n1, g1]}, {"kind": "raises-second-run"}))
+            continue
+        w_ref, ep_ref, steps_ref = reference(c)
+        if r["steps"] != steps_ref or r["w"] != w_ref:
+            add(Violation("mean-gradient", "second run of one engine object (first run: %d iterations, gradient_steps=%d): the optimiser saw %s, expected %s (gradients %s)" % (n1, k, r["steps"], steps_ref, c["grads"]), {"case": c, "first_run": {"num_iterations": n1, "grads": g1}, "observed_steps": r["steps"], "expected_steps": steps_ref}, {"kind": "mean-gradient", "k_gt_1": True, "second_run": True}))
     # gradients left over before training (e.g. from a smoke test) must not enter the first step, for every optimised parameter
     for _ in range(ctx.n(3, 20)):
         n = rng.randint(2, 5)
